@@ -1,7 +1,7 @@
 (* C13 — store-rewriting commands are idempotent; a clean check changes nothing. *)
 Require Import Base Extracted Criteria Search AuditGraph DepGraph Resolve Update Commands.
 Require Import Witness.
-Require Import CriteriaProofs UpdateProofs UpdateKeep.
+Require Import CriteriaProofs UpdateProofs UpdateKeep EndToEnd CheckFixpoint CheckTwice.
 Local Open Scope N_scope.
 
 (* a settled store (nothing in it is a fresh import — the state right after any
@@ -14,6 +14,41 @@ Theorem C13_check_update_leaves_settled_store : forall t ing re ps,
   pu_local u = ps_local ps /\ pu_imported u = ps_imported ps /\
   pu_wild_imported u = ps_wild_imported ps /\ pu_publishers u = ps_publishers ps.
 Proof. exact settled_check_update_keeps. Qed.
+
+(* ... and on a store in the form cargo-vet itself writes (no freshness marks; unpublished records sorted and
+   de-duplicated; every exemption's criteria written as the minimal names of a non-empty set) the whole update of a
+   successful unlocked check is the identity: the second check writes the store it read, whatever certification
+   paths it chooses *)
+Theorem C13_check_on_a_written_store_writes_it_back : forall inp s s1,
+  (forall name ps, In (name, ps) (st_pkgs s) -> written_form (st_criteria s) ps) ->
+  NoDup (map fst (st_pkgs s)) ->
+  cmd_check false inp s = Some s1 -> s1 = s.
+Proof. exact check_on_written_store. Qed.
+Example C13_written_store_nonvacuous :
+  cmd_check false w_graph w_store = Some w_store /\
+  (forall name ps, In (name, ps) (st_pkgs w_store) -> written_form (st_criteria w_store) ps).
+Proof.
+  split; [vm_compute; reflexivity|].
+  intros name ps [E|[E|[]]]; inversion E; subst; (split; [|split; [|split]]).
+  - repeat split; cbn; intros; try tauto.
+  - cbn. tauto.
+  - reflexivity.
+  - intros x [<-|[]]. vm_compute. auto.
+  - repeat split; cbn; intros; try tauto. destruct H as [<-|[<-|[]]]; reflexivity.
+  - cbn. tauto.
+  - reflexivity.
+  - cbn. tauto.
+Qed.
+
+(* ... and what a successful check writes IS in that form, so: a second successful unlocked check, run on the store
+   the first one wrote, writes the very same store — for every graph and every loaded store *)
+Theorem C13_second_check_writes_the_same_store : forall inp s s1,
+  store_ok inp s -> NoDup (map fst (st_pkgs s)) ->
+  cmd_check false inp s = Some s1 -> cmd_check false inp s1 = Some s1.
+Proof. exact check_twice. Qed.
+Example C13_second_check_nonvacuous :
+  exists s1, cmd_check false w_graph w_store_exempted = Some s1 /\ cmd_check false w_graph s1 = Some s1.
+Proof. eexists. split; vm_compute; reflexivity. Qed.
 
 (* a --locked check does not apply any update at all *)
 Theorem C13_locked_check_writes_the_store_it_read : forall inp s s',
@@ -67,6 +102,8 @@ Proof.
 Qed.
 
 Print Assumptions C13_check_update_leaves_settled_store.
+Print Assumptions C13_check_on_a_written_store_writes_it_back.
+Print Assumptions C13_second_check_writes_the_same_store.
 Print Assumptions C13_locked_check_writes_the_store_it_read.
 Print Assumptions C13_written_lists_are_canonical.
 Print Assumptions C13_check_keeps_exemption_meaning.
